@@ -13,6 +13,7 @@ package martian
 //@ ghost ivar upstream() int
 //@ ghost ivar modReqFailed() bool
 //@ ghost ivar sawClosing() bool
+//@ ghost ivar readOK() bool
 
 // The two trace hooks: one completion report per call (the hook body is user code).
 //@ func (*Proxy).traceReadRequest
@@ -31,9 +32,10 @@ package martian
 // Reading the next request (net/http; deadlines are C15's subject).
 //@ func (*proxyConn).readRequest
 //@ trusted
-//@ modifies *
+//@ modifies *, readOK()
 //@ preserves proxyConn.* Proxy.* bufio.ReadWriter.*
 //@ ensures result1 == nil ==> result0 != nil && result0.Body != nil && result0.URL != nil && result0.Header != nil
+//@ ensures readOK() == (result1 == nil)
 
 //@ func (*Proxy).closing
 //@ trusted
@@ -107,7 +109,7 @@ package martian
 //@ property C13 C02
 //@ requires res != nil && res.Request != nil
 //@ pure
-//@ ensures result == (err == nil && ((res.Request.Method == "CONNECT" && res.StatusCode / 100 == 2) || res.StatusCode == 101))
+//@ ensures result == (err == nil && ((res.Request.Method == "CONNECT" && res.StatusCode / 100 == 2) || (res.Request.Method != "CONNECT" && res.StatusCode == 101)))
 
 // ---- response framing decisions (C02) ----
 
@@ -156,7 +158,7 @@ package martian
 //@ modifies *
 //@ preserves http.Response.StatusCode http.Response.Close http.Response.Request http.Request.Method http.Request.Close http.Response.Header http.Request.Header http.Request.URL http.Request.Body http.Response.Body proxyConn.* Proxy.* bufio.ReadWriter.*
 
-//@ pred deferredReport(method string, status int) = (method == "CONNECT" && status / 100 == 2) || status == 101
+//@ pred deferredReport(method string, status int) = (method == "CONNECT" && status / 100 == 2) || (method != "CONNECT" && status == 101)
 
 // writeResponse: exactly one completion report with the status that was
 // written, except for a successfully flushed CONNECT 2xx / 101 whose report
@@ -197,10 +199,11 @@ package martian
 
 //@ func (*proxyConn).handleUpgradeResponse
 //@ property C13 C03
-//@ requires p != nil && p.Proxy != nil && p.conn != nil && p.brw != nil && p.brw.Writer != nil && res != nil && res.Request != nil && res.Header != nil && res.StatusCode == 101
+//@ requires p != nil && p.Proxy != nil && p.conn != nil && p.brw != nil && p.brw.Writer != nil && res != nil && res.Request != nil && res.Header != nil && res.StatusCode == 101 && res.Request.Method != "CONNECT"
 //@ modifies *, nWrote(), wroteStatus(), sawClosing()
 //@ preserves proxyConn.Proxy proxyConn.brw proxyConn.conn Proxy.* bufio.ReadWriter.* http.Response.StatusCode http.Response.Request http.Request.Method
 //@ ensures (!sawClosing() ==> nWrote() == old(nWrote()) + 1) && result != nil
+//@ ensures nWrote() == old(nWrote()) || nWrote() == old(nWrote()) + 1
 
 // ---- the per-request handler (C13 L13.1, C04 L4.1, C11 L11.2) ----
 
@@ -238,8 +241,10 @@ package martian
 //@ func (*proxyConn).handle
 //@ property C13 C04 C11
 //@ requires p != nil && p.Proxy != nil && p.conn != nil && p.brw != nil && p.brw.Writer != nil && p.brw.Reader != nil
-//@ modifies *, nRead(), nWrote(), wroteStatus(), sawClosing(), modReqFailed(), upstream()
+//@ modifies *, nRead(), nWrote(), wroteStatus(), sawClosing(), modReqFailed(), upstream(), readOK()
 //@ ensures nRead() == old(nRead()) + 1
+//@ ensures readOK() && !sawClosing() ==> nWrote() == old(nWrote()) + 1
+//@ ensures !readOK() ==> nWrote() == old(nWrote()) && upstream() == old(upstream())
 //@ ensures nWrote() == old(nWrote()) || nWrote() == old(nWrote()) + 1
 //@ ensures upstream() <= old(upstream()) + 1
 //@ ensures upstream() == old(upstream()) + 1 ==> !modReqFailed()
